@@ -86,8 +86,19 @@ MPTYPE == <<109, 117, 108, 116, 105, 112, 97, 114, 116, 47, 102, 111, 114, 109, 
             98, 111, 117, 110, 100, 97, 114, 121, 61>>            \* "multipart/form-data; boundary="
 URLTYPE == <<97, 112, 112, 108, 105, 99, 97, 116, 105, 111, 110, 47, 120, 45, 119, 119, 119, 45, 102, 111, 114, 109,
              45, 117, 114, 108, 101, 110, 99, 111, 100, 101, 100>>
-ContentType(enc, quoted) == IF enc = "url" THEN URLTYPE
-                            ELSE IF quoted THEN MPTYPE \o <<DQ>> \o Boundary \o <<DQ>> ELSE MPTYPE \o Boundary
+ContentTypeB(enc, quoted, bd) == IF enc = "url" THEN URLTYPE
+                                 ELSE IF quoted THEN MPTYPE \o <<DQ>> \o bd \o <<DQ>> ELSE MPTYPE \o bd
+ContentType(enc, quoted) == ContentTypeB(enc, quoted, Boundary)
+(* boundaries (RFC 2046 bchars).  Those containing tspecials - '=' included, as in Python's
+   "===============...==" - must travel as a quoted parameter; plain ones may be sent either way.
+   None of them can occur in content (DataAlpha has no 'b' / 'x'). *)
+TSpecial(c) == c \in {40, 41, 60, 62, 64, 44, 59, 58, 92, 34, 47, 91, 93, 63, 61}
+BoundarySet == {Boundary,
+                <<98, 95, 45, 46, 43, 39, 55>>,                                   \* b_-.+'7
+                <<97, 61, 98>>,                                                   \* a=b
+                <<61, 61, 61, 61, 120, 61, 61>>,                                  \* ====x==
+                <<39, 40, 41, 43, 95, 44, 45, 46, 47, 58, 61, 63, 120>>}          \* '()+_,-./:=?x
+NeedsQuote(bd) == \E i \in 1..Len(bd) : TSpecial(bd[i])
 ArbContentType(enc) == IF enc = "url" THEN URLTYPE ELSE MPTYPE \o <<98>>      \* arbitrary bodies: boundary "b"
 
 (* what parsing must deliver: fields and files in form order *)
@@ -131,7 +142,7 @@ MutBases ==
      [enc |-> "mp", form |-> <<File(<<102>>, <<233, 32>>, "x", FALSE, <<45>>)>>],
      [enc |-> "url", form |-> <<Field(A1, "q", <<233, 32>>), Field(<<98, 61>>, "q", <<>>)>>]}
 
-VARIABLES sc,      \* [mode, enc, quoted, ctype, form, mut, maxParts, maxHdr]
+VARIABLES sc,      \* [mode, enc, quoted, bd, ctype, form, mut, maxParts, maxHdr]
           body,    \* encoded body (kept in "form" states only)
           exp      \* [verdict, fields, files, len, sum]
 vars == <<sc, body, exp>>
@@ -143,15 +154,16 @@ Verdict(v, f, bs) == [verdict |-> v, fields |-> Expected(f).fields, files |-> Ex
 
 FormInit ==
     \E enc \in {"mp", "url"} :
-      \E f \in (IF enc = "mp" THEN MpForms ELSE UrlForms), q \in BOOLEAN :
-        /\ (q => (enc = "mp" /\ Len(f) = 2))               \* quoted boundary: two-part forms only
-        /\ sc = [mode |-> "form", enc |-> enc, quoted |-> q, ctype |-> ContentType(enc, q), form |-> f, mut |-> NoMut, maxParts |-> NoLimit, maxHdr |-> NoLimit]
-        /\ body = Encode(enc, f)
+      \E f \in (IF enc = "mp" THEN MpForms ELSE UrlForms), q \in BOOLEAN, bd \in BoundarySet :
+        /\ ((q \/ bd # Boundary) => (enc = "mp" /\ Len(f) = 2))      \* boundary variants: two-part forms only
+        /\ (NeedsQuote(bd) => q)
+        /\ sc = [mode |-> "form", enc |-> enc, quoted |-> q, bd |-> bd, ctype |-> ContentTypeB(enc, q, bd), form |-> f, mut |-> NoMut, maxParts |-> NoLimit, maxHdr |-> NoLimit]
+        /\ body = (IF enc = "url" THEN EncodeUrl(f) ELSE EncodeMultipartB(bd, f))
         /\ exp = Verdict("form", f, body)
 
 MutInit ==
     \E b \in MutBases :
-        /\ sc = [mode |-> "base", enc |-> b.enc, quoted |-> FALSE, ctype |-> ContentType(b.enc, FALSE), form |-> b.form, mut |-> NoMut, maxParts |-> NoLimit, maxHdr |-> NoLimit]
+        /\ sc = [mode |-> "base", enc |-> b.enc, quoted |-> FALSE, bd |-> Boundary, ctype |-> ContentType(b.enc, FALSE), form |-> b.form, mut |-> NoMut, maxParts |-> NoLimit, maxHdr |-> NoLimit]
         /\ body = Encode(b.enc, b.form)
         /\ exp = Verdict("form", b.form, body)
 
@@ -176,7 +188,7 @@ Mutate ==
 (* arbitrary short bodies under both content types, built byte by byte *)
 ArbInit ==
     \E enc \in {"mp", "url"} :
-        /\ sc = [mode |-> "arb", enc |-> enc, quoted |-> FALSE, ctype |-> ArbContentType(enc), form |-> <<>>, mut |-> NoMut, maxParts |-> NoLimit, maxHdr |-> NoLimit]
+        /\ sc = [mode |-> "arb", enc |-> enc, quoted |-> FALSE, bd |-> <<98>>, ctype |-> ArbContentType(enc), form |-> <<>>, mut |-> NoMut, maxParts |-> NoLimit, maxHdr |-> NoLimit]
         /\ body = <<>>
         /\ exp = [verdict |-> "clean", fields |-> <<>>, files |-> <<>>, len |-> 0, sum |-> Sum(<<>>)]
 ArbPut ==
@@ -193,7 +205,7 @@ ArbPut ==
    in between the verdict is free. *)
 HeadLen(f) == LET hs == {Len(PartHead(f[i])) : i \in 1..Len(f)} IN CHOOSE x \in hs : \A y \in hs : x >= y
 Limits ==
-    /\ sc.mode = "form" /\ sc.enc = "mp" /\ Len(sc.form) = 2 /\ ~sc.quoted
+    /\ sc.mode = "form" /\ sc.enc = "mp" /\ Len(sc.form) = 2 /\ ~sc.quoted /\ sc.bd = Boundary
     /\ LET n == Len(sc.form)
            h == HeadLen(sc.form) IN
        \E c \in {[mp |-> n - 1, mh |-> NoLimit, v |-> "error"], [mp |-> n, mh |-> NoLimit, v |-> "free"],
@@ -212,7 +224,7 @@ Spec == Init /\ [][Next]_vars
 (* sanity of the encoder itself (checked by TLC on every generated form) *)
 (* the delimiter occurs exactly once per part plus the final one, i.e. never inside content *)
 CountSub(s, sub) == Cardinality({i \in 1..(Len(s) - Len(sub) + 1) : SubSeq(s, i, i + Len(sub) - 1) = sub})
-BoundaryUnique == (sc.mode = "form" /\ sc.enc = "mp") => CountSub(body, Delim) = Len(sc.form) + 1
+BoundaryUnique == (sc.mode = "form" /\ sc.enc = "mp") => CountSub(body, <<DASH, DASH>> \o sc.bd) = Len(sc.form) + 1
 (* urlencoded bodies use only unreserved characters, '+', '%XX', '=' and '&' *)
 UrlClean == (sc.mode = "form" /\ sc.enc = "url") =>
               \A i \in 1..Len(body) : IsAlpha(body[i]) \/ IsDigit(body[i]) \/ body[i] \in {45, 46, 95, 126, 43, 37, 61, 38}
